@@ -61,6 +61,19 @@ CHECKS = {
         design_ref="DESIGN.md 5 C35",
         note=NOTE_COMMON + " Field values are compared through an interning that identifies equal numbers and ndarray/tuple but distinguishes tuple from list.",
     ),
+    "C20": dict(
+        text=("TLC enumerates ScanImpl (LineScan._adjust_gpts/_adjust_sampling and GridScan via Grid with endpoint) for every axis "
+              "length x (gpts | sampling) x endpoint in the bounds and checks that the resolved gpts/sampling make the generated "
+              "positions satisfy Scan.tla (spacing = reported sampling, end point reached / one step short); every case is realised "
+              "as LineScans along four rational directions and as GridScans (pairs of axis cases), read both directly "
+              "(get_positions) and block-wise (lazy ensemble_blocks / eager generate_blocks), and the exact rational positions, "
+              "shape and axes metadata are decided by ScanTrace.tla; probe builds at TLC-enumerated position classes (on/off "
+              "pixel, negative, beyond the cell, odd/even grids) are compared with the origin probe shifted by an independent "
+              "numpy Fourier shift / roll."),
+        technique="TLA+ model of scan resolution (TLC) + TLC-enumerated scans executed on the real classes + TLC trace validation over exact rationals",
+        design_ref="DESIGN.md 5 C20",
+        note=NOTE_COMMON + " float32 positions are mapped to rationals with denominator <= 1024 (inexact cases skipped and counted); probe comparison tolerance 2e-5.",
+    ),
 }
 
 NOT_APPLICABLE = {
